@@ -18,7 +18,7 @@ CLAIMED = {
  "C03": ("model_checking", "6", "TLC: C03_ReadInBuffer/SubIndex/LoadFits on AsyncPos, C03_InBuffer on FftBlocks; trace predicate C03_CallOk on real runs built with debug-assertions+overflow-checks in worker processes (abort/panic/Err are data)."),
  "C04": ("model_checking", "6", "TLC: C04_Bounds/Written/Delivers on the models and the refinement AsyncPos/FftBlocks => Abstract.tla (PROPERTY Refines: every step of the transcribed code is a step the generative contract allows); trace predicates C04_Bounds, C04_Consumed, C04_Written (sentinel-filled buffers of exactly the advertised size and of the maximum size), C04_LifeBounds (what is needed now never exceeds ANY maximum advertised earlier) and C04_Allocate (lengths/capacities of input/output_buffer_allocate at arbitrary history points)."),
  "C06": ("model_checking", "6", "TLC: C06_Supplied (content model: every cell read holds the frame it should) on AsyncPos; trace predicates C06_Increasing/StepInRange/RampMonotone/Supplied on evaluation instants observed through the index signal and a probing SincInterpolator."),
- "C07": ("model_checking", "6", "TLC: drift is a bounded function of the parked position (C07_NoDrift, PosBounded; C07_Drift/DriftIsSaved/Blocks with no depth bound on FftBlocks = unbounded streams) and the refinement into Abstract.tla; trace predicates C07_NoDrift (at any steady ratio: the constructor's or one set before the stream starts), C07_FftExact, C07_FftBlock on running sums, 1-frame chunks included."),
+ "C07": ("model_checking", "6", "TLC: drift is a bounded function of the parked position (C07_NoDrift, PosBounded; C07_Drift/DriftIsSaved/Blocks with no depth bound on FftBlocks = unbounded streams) and the refinement into Abstract.tla; for ARBITRARY rates, block counts and chunk sizes the FFT integer machine's invariant is proved inductive with TLAPS (FftIndProofs.tla, 451 obligations) and TLC checks that FftBlocks takes exactly that machine's transitions (IndRefines); trace predicates C07_NoDrift (at any steady ratio: the constructor's or one set before the stream starts), C07_FftExact, C07_FftBlock on running sums, 1-frame chunks included."),
  "C09": ("model_checking", "6", "Trace predicate C09_NoHeap (per-thread counting global allocator sampled around each call) on every real-time-safe action at every history point TLC enumerates plus seeded histories."),
  "C12": ("model_checking", "6", "Trace predicates C12_RatioDomain (TLC recomputes the range test bit-exactly from the f64 words of argument and bounds), C12_RejectNoop, C12_ChunkDomain, C12_ChunkEffect and C06_StepInRange (the spacing after an accepted change is the one of original*x) over argument classes x history points; TraceTwin: an instance that also receives rejected setters vs a twin that never saw them (TwinFull), relative vs absolute setter twins (TwinCtl)."),
  "C13": ("model_checking", "6", "TLC on Shapes.tla enumerates EVERY call shape (channel counts, mask length/values, per-channel lengths: 22 940 cases for 2 channels) and checks the transcribed decision of validate_buffers against the fault-set contract; the cases are executed against the code. Trace predicates C13_ErrVariant (TLC derives the set of faults of the observed shape), C13_Untouched, C13_Ctor; malformed calls (with and without well-formed masks) at model history points and in seeded histories; TraceTwin TwinFull against a twin that never saw the failed calls."),
